@@ -29,7 +29,7 @@ pub enum Op {
     Clear,
     CloneArena { from: usize },
     DropArena { k: usize },
-    /// 0 flush, 1 flush_async, 2 flush_range, 3 flush_header, 4 flush_header_and_range
+    /// 0 flush, 1 flush_async, 2 flush_range, 3 flush_header, 4 flush_header_and_range, 5 mlock a page, 6 munlock it
     Flush(u8),
     /// close everything and reopen the file. mode: 0 map_mut, 1 map_copy, 2 map, 3 map_copy_read_only;
     /// cap: 0 same, 1 larger, 2 absent
